@@ -90,8 +90,16 @@ def events(darsia, rng, stacks, degrees, quick):
         for r in range(1, total + 1):
             for sub in itertools.combinations(range(total), r):
                 subsets.append(([alld[j] for j in sub], [alld[j] for j in sub]))
-        if quick and len(subsets) > 8:
-            subsets = subsets[:2] + rng.sample(subsets[2:], 6)
+        # dof lists need not follow the declaration order: permuted and interleaved orders as well
+        for _ in range(3):
+            r = rng.randint(2, total) if total >= 2 else 1
+            perm = rng.sample(range(total), r)
+            subsets.append(([alld[j] for j in perm], [alld[j] for j in perm]))
+        if total >= 2:
+            rev = list(reversed(range(total)))
+            subsets.append(([alld[j] for j in rev], [alld[j] for j in rev]))
+        if quick and len(subsets) > 10:
+            subsets = subsets[:2] + rng.sample(subsets[2:-4], 4) + subsets[-4:]
         for qi, (dofs_log, dofs_arg) in enumerate(subsets):
             n = total if dofs_log == "all" else len(dofs_log)
             params = [rng.randint(10, 40) for _ in range(n)]
